@@ -29,7 +29,7 @@ var errInjected = errors.New("injected callback failure")
 
 // cbErrs: the error a failing callback returns - its own, or one of the sentinels the ingester itself deals with
 // (end of file, a cancelled context, a closed file). Whatever it is, it comes back unchanged.
-var cbErrs = []error{errInjected, io.EOF, context.Canceled, os.ErrClosed, io.ErrUnexpectedEOF}
+var cbErrs = []error{errInjected, io.EOF, context.Canceled, os.ErrClosed, io.ErrUnexpectedEOF, syscall.EINTR, syscall.EAGAIN}
 
 func scratchDir() string {
 	d := os.Getenv("VERIF_BUILD")
